@@ -7,6 +7,7 @@ REGISTRY = {
                 extract=[("verify", "ExtractVerify.v", "verify_driver.ml")]),
     "C01": dict(go=["translate"], translate=[("precedence", "GenPrecedence.v")]),
     "C20": dict(go=["c20obs"]),
+    "C18": dict(go=["c18obs"]),
     "C17": dict(go=["c17obs"], extract=[("marshal", "ExtractMarshal.v", "marshal_driver.ml")]),
     # pregen: (tool, args after the repo path, generated file under coq/gen) - run before the Coq build
     "C19": dict(go=["c19obs", "c19gen"], pregen=[("c19gen", ["coq"], "GenWrappers.v")], extract=[("c19", "ExtractC19.v", "c19_driver.ml")]),
